@@ -284,6 +284,9 @@ def plan_families(ctx):
             tasks.append(dict(N=1, box="Z", r=r, eps=0.01, kind="zig", par=[list(slopes), L]))
             # a Problem that declares constraints and a discrete parameter and dispatches on the holder's type
             tasks.append(dict(N=1, box="B1", r=r, eps=0.01, kind="zig", par=[list(slopes), L], constraints=2))
+            # the objective value left in the holder as a 0-d array; r below 2 as well
+            tasks.append(dict(N=1, box="B1", r=r, eps=0.01, kind="zig", par=[list(slopes), L], holder="zerod"))
+            tasks.append(dict(N=1, box="B0", r=1.5, eps=0.01, kind="zig", par=[list(slopes), 0.5], holder="zerod"))
     for c in ((0.0, 0.0), (1.0, 1.0 / 3.0), (0.5, 1.0)):
         for L, r in ((0.5 * 2.0 / K(2), 2.0), (0.95 * 3.5 / K(2), 3.5)):
             tasks.append(dict(N=2, box="B1", r=r, eps=0.1, kind="cone", par=[[[0.0, L, list(c)]], 2], holder="fresh"))
